@@ -444,6 +444,13 @@ impl From<StringKey> for IsographDirectiveName { #[verifier::external_body] fn f
 /// `s.contains(c)` for a char pattern
 #[verifier::external_body]
 pub fn str_contains_char(s: &str, c: char) -> bool { unimplemented!() }
+/// `&String` as `&str` (deref coercion)
+pub uninterp spec fn string_byte_len(s: &String) -> nat;
+#[verifier::external_body]
+pub fn string_as_str<'a>(s: &'a String) -> (r: &'a str) ensures byte_len(r) == string_byte_len(s) { unimplemented!() }
+/// Option<String>::as_deref
+#[verifier::external_body]
+pub fn opt_as_deref<'a>(o: &'a Option<String>) -> Option<&'a str> { unimplemented!() }
 /// `a == b` / `a != b` on &str
 #[verifier::external_body]
 pub fn str_eq(a: &str, b: &str) -> bool { unimplemented!() }
@@ -842,6 +849,17 @@ pub fn parse_optional_description(tokens: &mut PeekableLexer<'_>) -> (r: Option<
     ensures
         final(tokens).inv(), //@O C07.O-5_parse_iso_client_pointer_declaration_preserves_cursor_invariant
         r is Ok ==> located_from(r->Ok_0, old(tokens)),
+//@end
+
+//@item rel=crates/isograph_lang_parser/src/parse_iso_literal.rs kind=enum name=IsoLiteralExtractionResult prefix="pub"
+//@fn rel=crates/isograph_lang_parser/src/parse_iso_literal.rs name=parse_iso_literal vis=pub ret=r serves=C07
+//@rw R15 R16 R17 R4
+//@sub "PeekableLexer::new\(&iso_literal_text, text_source\)" => "PeekableLexer::new(string_as_str(&iso_literal_text), text_source)" n=1
+//@sub "\(&iso_literal_text\)\.intern\(\)" => "intern_str(string_as_str(&iso_literal_text))" n=1
+//@sub "const_export_name\.as_deref\(\)" => "opt_as_deref(&const_export_name)" n=*
+//@contract
+    // iso literals are far below 4 GiB (precondition of the u32 spans)
+    requires string_byte_len(&iso_literal_text) <= u32::MAX,
 //@end
 
 // ---- string / block-string callbacks of the logos lexer (token_kind.rs) ---------------
